@@ -94,6 +94,8 @@ def check(case):
     want0 = expected_quota(case, o, n)
     if rule == 'qpq':
         want0 = floor_to(Fraction(n, 1 + case['nseats']), ar.scale)
+    if q0 is None and o.stage == 'done':
+        res.fail('formula', 'formula|missing|' + base, 'the record of a completed count reports no quota')
     if q0 is not None and q0 != want0:
         res.fail('formula', 'formula|initial|' + base, 'record quota %s, prescribed %s (n=%d, seats=%d)' % (q0, want0, n, case['nseats']))
     if rule in model.GREGORY:
